@@ -58,8 +58,7 @@ class C16(Check):
             "and min / max / extent / fixed_length / byte alignment of every type and field offset / hash / == are queried; "
             "time.monotonic is virtual and jumps forwards and backwards during the run. Oracles: identical step vector for all j; "
             "no numerical expansion of a non-leaf operator and no residue set larger than its divisor (probe on the operator "
-            "classes; 'unavailable' if the names are gone); results unaffected by clock jumps; a step budget of 4x the smallest "
-            "instance aborts growth early. distinct = hash of (type features of the parameterised definitions, r); non-trivial = "
+            "classes; 'unavailable' if the names are gone); results unaffected by clock jumps; families that are expensive already at the smallest capacity are skipped (counted). distinct = hash of (type features of the parameterised definitions, r); non-trivial = "
             "the parameterised array has a variable-length or sub-byte element, or is nested in another array")
     TIERS = {"quick": {"runs": 96, "budget_s": 55}, "thorough": {"runs": 12000, "budget_s": 1200}}
     ASSUMPTIONS = ["capacities below 2*divisor are not compared (there the set itself legitimately grows)", "enumerate_elements_with_offsets and the in-language _offset_ are not queried (documented as linear / numerical)"]
@@ -197,16 +196,29 @@ class C16(Check):
                         if el[0] == "ref" or (el[0] not in ("ref",) and T.bits_of(el) % 8):
                             out.nontrivial = True
         out.shape = digest([sorted(feats), scn["r"]])
+        ABS_LIMIT = 3_000_000  # smallest instance: families that are combinatorial *independently of capacity* are skipped
         for idx, j in enumerate(scn["exps"]):
             ws = instantiate(scn["ws"], j)
-            limit["bls"] = None if base_counts is None else 4 * base_counts["bls"] + 6000
+            klass = 8 if j < 8 else 16 if j < 16 else 32 if j < 32 else 64  # width of the implicit length prefix
+            if base_counts is None:
+                limit["bls"] = ABS_LIMIT
+            elif klass in class_counts:
+                limit["bls"] = 2 * class_counts[klass][1]["bls"] + 2000  # same class: the step count must be identical
+            else:
+                limit["bls"] = min(100 * base_counts["bls"] + 1_000_000, 10_000_000)  # another prefix width: other residues
+            self.heartbeat()
             c, result = measure(ws, scn.get("jumps", []))
             out.stats["instances"] += 1
             out.stats["virtual_steps(bls frames)"] += c["bls"]
             out.stats["virtual_steps(other pydsdl frames)"] += c["other"]
             out.obs.append([j, c["bls"], c["other"], result[0]])
             if result[0] == "budget":
-                out.fail("C16.budget", "capacity 2**%d+%d: more than 4x the steps of the smallest instance (%d) in the bit-length-set solver: the analysis cost grows with the capacity" % (j, scn["r"], base_counts["bls"]), "budget")
+                if base_counts is None or klass not in class_counts:
+                    # not comparable: the family is expensive at its smallest capacity / the prefix width changed the residues
+                    out.stats["saturated_families(skipped)"] += 1
+                    break
+                out.fail("C16.budget", "capacity 2**%d+%d: more than twice the steps of 2**%d+%d (%d), which has the same prefix width and residues: the analysis cost grows with the capacity" % (
+                    j, scn["r"], class_counts[klass][0], scn["r"], class_counts[klass][1]["bls"]), "budget")
                 break
             if result[0] == "exc":
                 if idx == 0:
@@ -221,7 +233,6 @@ class C16(Check):
                 out.fail("C16.no-expand", "capacity 2**%d+%d: a residue set larger than its divisor was materialised" % (j, scn["r"]), "big-modulo")
             struct = [[row[0]] + row[4:] for row in result[1]]  # capacity-independent part: names, fixed/aligned flags, residues, alignment of offsets
             struct = digest([[x if not isinstance(x, list) or len(x) != 4 else x[:2] for x in row] for row in struct])
-            klass = 8 if j < 8 else 16 if j < 16 else 32 if j < 32 else 64  # width of the implicit length prefix
             if base_counts is None:
                 base_counts, base_struct = c, struct
                 # the same instance again without clock jumps: results must not depend on the clock
@@ -233,8 +244,6 @@ class C16(Check):
             ref = class_counts.get(klass)
             if ref is None:
                 class_counts[klass] = (j, c, struct)
-                if c["bls"] > 4 * base_counts["bls"] + 5000:
-                    out.fail("C16.constant", "bit-length-set solver steps: %d at capacity 2**%d+%d vs %d at 2**%d+%d" % (c["bls"], j, scn["r"], base_counts["bls"], scn["exps"][0], scn["r"]), "steps-bls:growth")
                 continue
             j0, c0, s0 = ref
             if c["bls"] != c0["bls"]:
